@@ -195,6 +195,8 @@ class Exec:
         self.enums = dict(BUILTIN_ENUMS)
         self.enums.update(enums)
         self.mode = mode
+        self.relerr = False       # real mode: every float operation result carries a relative error |e| <= 2^-53
+        self.n_err = 0
         self.domain = []          # constraints that define the domain of lazily created symbols
         self.assumptions = []     # spec-level assumptions
         self.solver = z3.Solver()
@@ -315,6 +317,13 @@ class Exec:
             f = {"Add": z3.fpAdd, "Sub": z3.fpSub, "Mul": z3.fpMul, "Div": z3.fpDiv}[op]
             return FloatV(f(RM, a.t, b.t))
         und = z3.Or(a.undef, b.undef)
+        if self.relerr and op in ("Add", "Sub", "Mul", "Div"):
+            self.n_err += 1
+            e = z3.Real("fp_err%d" % self.n_err)
+            self.inputs["fp_err%d" % self.n_err] = e
+            self.domain.append(z3.And(e >= -z3.Q(1, 2 ** 53), e <= z3.Q(1, 2 ** 53)))
+            exact = {"Add": a.t + b.t, "Sub": a.t - b.t, "Mul": a.t * b.t, "Div": a.t / b.t}[op]
+            return FloatV(exact * (1 + e), z3.Or(und, b.t == 0) if op == "Div" else und)
         if op == "Add":
             return FloatV(a.t + b.t, und)
         if op == "Sub":
